@@ -149,6 +149,7 @@ func c03(tier string) []*explore.Scenario {
 	}
 	out = append(out, c03Foreign())
 	out = append(out, withHistory(historyKinds(tier), c03Early(2, 1, 64, "sendall", 1), c03Early(2, 0, 0, "concurrent", 1), c03LateReader("SStream", 18, true, 64))...)
+	out = append(out, withConfig(configKinds(tier), c03Early(2, 1, 64, "sendall", 1), c03Early(2, 0, 0, "concurrent", 1), c03LateReader("SStream", 18, true, 64))...)
 	// a caller that reads late: bursts of up to 200 messages, then the handler's outcome
 	for _, m := range []int{2, 16, 17, 18, 40, 200} {
 		for _, fail := range []bool{true, false} {
